@@ -104,6 +104,7 @@ fn dispatch_replay(out: &mut Out, _suite: &str, id: u64, comp: &str, lines: &[St
 		"action" => action::replay_case(out, id, lines),
 		"candle" => candle::replay_case(out, id, lines),
 		"renko" => renko::replay_case(out, id, lines),
+		"indicator" => indicators::replay_case(out, id, lines),
 		"flags" => eprintln!("replay: case {id} holds harness-internal comparisons; re-run its suite (see the '# suite' line)"),
 		other => panic!("replay: unknown component {other}"),
 	}
